@@ -356,7 +356,7 @@ func TestGrid(t *testing.T) {
 }
 
 func TestGenerated(t *testing.T) {
-	rt.Check(t, 30, 1500, func(t *rapid.T) {
+	rt.Check(t, 30, 4000, func(t *rapid.T) {
 		k := kase{
 			delayMs:     rapid.OneOf(rapid.Just(0), rapid.IntRange(1, 200)).Draw(t, "daemonDelayMs"),
 			pauseMs:     rapid.OneOf(rapid.Just(0), rapid.IntRange(1, 300)).Draw(t, "launcherPauseMs"),
